@@ -19,7 +19,14 @@ func RunHistory(w *World, next func(d Dump, i int) *Op, after func(i int, o Op, 
 			return steps, cur, err
 		}
 		oc := *o
-		steps = append(steps, Step{Op: &oc, Obs: ob})
+		if ob.ModelOps == nil {
+			steps = append(steps, Step{Op: &oc, Obs: ob})
+		} else {
+			for i := range ob.ModelOps {
+				mo := ob.ModelOps[i]
+				steps = append(steps, Step{Op: &mo, Obs: Obs{Class: ob.Class}})
+			}
+		}
 		if o.Kind == "restart" {
 			steps = append(steps, Step{IsGen: true, Gen: w.G0 + 1})
 		}
